@@ -427,14 +427,16 @@ def optimize_log_lbfgsb(p0, data, model_func, pts,
     if lower_bound is None:
         lower_bound = [None] * len(p0)
     else:
-        lower_bound = numpy.log(lower_bound)
-        lower_bound[numpy.isnan(lower_bound)] = None
+        # None (unbound) becomes nan here and, like the log of a negative
+        # bound, None again below.
+        lower_bound = numpy.log(numpy.array(lower_bound, dtype=float))
+        lower_bound = [None if numpy.isnan(b) else b for b in lower_bound]
     lower_bound = _project_params_down(lower_bound, fixed_params)
     if upper_bound is None:
         upper_bound = [None] * len(p0)
     else:
-        upper_bound = numpy.log(upper_bound)
-        upper_bound[numpy.isnan(upper_bound)] = None
+        upper_bound = numpy.log(numpy.array(upper_bound, dtype=float))
+        upper_bound = [None if numpy.isnan(b) else b for b in upper_bound]
     upper_bound = _project_params_down(upper_bound, fixed_params)
     bounds = list(zip(lower_bound,upper_bound))
 
